@@ -20,6 +20,7 @@ from __future__ import annotations
 import importlib
 import json
 import multiprocessing
+from concurrent.futures import ProcessPoolExecutor, as_completed
 import os
 import signal
 import sys
@@ -315,8 +316,19 @@ def main(argv):
     walls = []
     if work:
         ctx = multiprocessing.get_context("fork")
-        with ctx.Pool(min(NPROC, len(work)), maxtasksperchild=None) as pool:
-            for status, payload in pool.imap_unordered(_run_job, work, chunksize=1):
+        # an executor rather than multiprocessing.Pool: when a worker process dies (killed, out of memory) its futures fail
+        # with BrokenProcessPool and the run ends as a harness error, where a Pool would wait for the lost result forever
+        def results():
+            with ProcessPoolExecutor(max_workers=min(NPROC, len(work)), mp_context=ctx) as ex:
+                futs = {ex.submit(_run_job, w): w for w in work}
+                for fut in as_completed(futs):
+                    try:
+                        yield fut.result()
+                    except Exception as e:  # noqa: BLE001
+                        yield ("err", f"shard {futs[fut][3]}: worker process lost ({type(e).__name__}: {e})")
+
+        if True:
+            for status, payload in results():
                 if status == "err":
                     harness_errors.append(payload)
                     continue
